@@ -32,6 +32,7 @@ func init() {
 			"C03-R4": "only DeviceResultOK carries a profile/device; handleDeviceResult table",
 			"C03-R5": "deviceByExtID: create an automatic device only for an existing profile without that device",
 			"C03-R7": "authentication settings survive the backend conversion and the profile file cache (enabled iff present; DoH-only flag and hash copied whenever present)",
+			"C03-R10": "every field of a request-information object taken from a pool (the credentials, server name and device result it carries identify the client) is re-initialised on every path",
 			"C03-R9": "profile database lookups by linked IP, dedicated IP, human ID and device ID re-check the current data (shared with C14-R4)",
 			"C03-R8": "a password authenticates only when the hash comparison returns no error",
 			"C03-R6": "identifier channel by transport (DoH: user info > URL path > server name; DoT/DoQ: server name; plain DNS: EDNS option)",
@@ -43,6 +44,11 @@ func init() {
 const dfPkg = "dnssvc/internal/devicefinder."
 
 func runC03(c *an.Ctx) {
+	// ---- R10: recycled request-information objects never carry the previous request's identity data
+	c.Floor("C03-R10", 5)
+	if n := sharedPoolInitSweep(c, "C03-R10", "agd.RequestInfo", "dnsserver.RequestInfo"); n == 0 {
+		c.Und("C03-R10", "pooled request information", token.NoPos, "no pooled request-information object found")
+	}
 	c.Floor("C03-R9", 4)
 	c14Lookups(c, "C03-R9")
 	c.Floor("C03-R1", 1)
